@@ -53,4 +53,45 @@ theorem utf8OfLatin1_eq_iff (n : List Nat) : utf8OfLatin1 n = n ↔ NameAscii n 
       omega
   · exact utf8OfLatin1_ascii n
 
+/-! ## `readBackLib` against `readBack` -/
+
+open OxiVerif.Spec.Syntax (Obj) in
+mutual
+theorem readBackLib_eq : ∀ (v : Obj), hasBigReal v = false → readBackLib v = readBack v
+  | .null, _ => rfl
+  | .bool _, _ => rfl
+  | .int _, _ => rfl
+  | .real t, h => by
+    simp only [hasBigReal] at h
+    simp only [readBackLib, readBack, readBackRealLib, readBackReal]
+    cases hi : Spec.Syntax.isIntTok (Model.trimReal t) with
+    | false => simp
+    | true =>
+      rw [hi] at h
+      simp at h
+      simp [h]
+  | .str _, _ => rfl
+  | .hexstr _, _ => rfl
+  | .name _, _ => rfl
+  | .ref _ _, _ => rfl
+  | .arr xs, h => by
+    simp only [hasBigReal] at h
+    simp [readBackLib, readBack, readBackLibList_eq xs h]
+  | .dict kvs, h => by
+    simp only [hasBigReal] at h
+    simp [readBackLib, readBack, readBackLibKVs_eq kvs h]
+theorem readBackLibList_eq : ∀ (xs : List Obj), hasBigRealList xs = false →
+    readBackLibList xs = readBackList xs
+  | [], _ => rfl
+  | x :: xs, h => by
+    simp only [hasBigRealList, Bool.or_eq_false_iff] at h
+    simp [readBackLibList, readBackList, readBackLib_eq x h.1, readBackLibList_eq xs h.2]
+theorem readBackLibKVs_eq : ∀ (kvs : List (List Nat × Obj)), hasBigRealKVs kvs = false →
+    readBackLibKVs kvs = readBackKVs kvs
+  | [], _ => rfl
+  | (k, v) :: rest, h => by
+    simp only [hasBigRealKVs, Bool.or_eq_false_iff] at h
+    simp [readBackLibKVs, readBackKVs, readBackLib_eq v h.1, readBackLibKVs_eq rest h.2]
+end
+
 end OxiVerif.C09
